@@ -133,6 +133,8 @@ func (tl *TokenLimiter) consumeRates(req *http.Request, source string, amount in
 	if exists {
 		bucketSet = bucketSetI.(*TokenBucketSet)
 		bucketSet.Update(effectiveRates)
+		// keep a busy source alive: only an idle source may be forgotten
+		_ = tl.bucketSets.Set(source, bucketSet, int(bucketSet.maxPeriod/clock.Second)*10+1)
 	} else {
 		bucketSet = NewTokenBucketSet(effectiveRates)
 		// We set ttl as 10 times rate period. E.g. if rate is 100 requests/second per client ip
